@@ -1334,13 +1334,13 @@ func (check) Run(seed int64, tier string, idx int, verbose bool) harness.Result 
 	shapes(res, T, "top", 0)
 	res.SetAdd("defect_shape", defectNames[tg.defect])
 
-	ok := roundTrip(res, T, v, true, "value", ts, vs)
+	ok := roundTrip(res, T, v, true, "value", ts, vs, verbose)
 	if !tg.dotted {
-		ok = roundTrip(res, T, v, false, "value", ts, vs) && ok
+		ok = roundTrip(res, T, v, false, "value", ts, vs, verbose) && ok
 	}
 	if idx%reuse(tier) == 0 {
 		z := (&vgen{zero: true}).val(T, false)
-		roundTrip(res, T, z, true, "zero-value", ts, show(z))
+		roundTrip(res, T, z, true, "zero-value", ts, show(z), verbose)
 	}
 	var nf, nc int
 	typeStats(T, &nf, &nc, 0)
@@ -1388,7 +1388,7 @@ func shapes(res *harness.R, t reflect.Type, parent string, depth int) {
 
 // roundTrip runs value -> Config -> zero value of T and reports deviations.
 // It returns false if the pair did not make it through both library calls.
-func roundTrip(res *harness.R, T reflect.Type, v reflect.Value, sep bool, what, ts, vs string) bool {
+func roundTrip(res *harness.R, T reflect.Type, v reflect.Value, sep bool, what, ts, vs string, verbose bool) bool {
 	var opts []ucfg.Option
 	mode := "no PathSep"
 	if sep {
@@ -1454,6 +1454,11 @@ func roundTrip(res *harness.R, T reflect.Type, v reflect.Value, sep bool, what, 
 		}
 		res.Violate(sig, "Unpack into a zero value of the same type failed (%s): %s; %s", reason(err), clip(message(err), 300), witness())
 		return false
+	}
+	if verbose {
+		// after the Unpack under test: observing must not come before it
+		d, derr := obs.Dict(c, opts...)
+		fmt.Printf("%s %s: config %s (%v)\n", what, mode, d, derr)
 	}
 	cmp.structEq(v, out.Elem(), "", nil)
 	for _, d := range cmp.devs {
